@@ -42,6 +42,12 @@ class R:
     def __repr__(self): return 'R(%s)' % self.s
 
 
+class RZ(R):
+    """symbolic real that is known to be one of two STATIC ints chosen by a symbolic condition
+    (`0 if c else 1`): arithmetic sees the real term, truthiness / int contexts the Z term z"""
+    def __init__(self, s, z): self.s, self.z = s, z
+
+
 class C:
     """complex = pair of real-ish components (R or static int)"""
     def __init__(self, re, im): self.re, self.im = re, im
@@ -315,6 +321,8 @@ class Translator:
     # ------------------------------------------------------------ bindings
     def bind_val(self, base, v):
         """let-bind symbolic scalars so that terms stay small"""
+        if isinstance(v, RZ):
+            return v
         if isinstance(v, R):
             if v.s.startswith('('):     # compound term
                 nm = self.fresh(base)
@@ -355,6 +363,13 @@ class Translator:
             if b is None or a is None:
                 res = (a is None) == (b is None)
                 return res if isinstance(op, ast.Is) else not res
+        if (isinstance(a, B) or isinstance(b, B)) and isinstance(op, (ast.Eq, ast.NotEq)):
+            def bs(v):
+                if isinstance(v, B): return v.s
+                if isinstance(v, int) and v in (0, 1): return 'true' if v else 'false'
+                raise Unsupported('bool compared with a non-bool', node)
+            e = B('(Bool.eqb %s %s)' % (bs(a), bs(b)))
+            return e if isinstance(op, ast.Eq) else self.bool_not(e)
         if isinstance(a, ZS) or isinstance(b, ZS):
             def zs(v):
                 if isinstance(v, ZS): return v.s
@@ -412,6 +427,7 @@ class Translator:
         if v is None: return False
         if isinstance(v, int): return v != 0
         if isinstance(v, (list, tuple, str)): return len(v) > 0
+        if isinstance(v, RZ): return B('(negb (Z.eqb %s 0%%Z))' % v.z)
         if isinstance(v, R): return B('(negb (eqb N %s (zero N)))' % v.s)
         if isinstance(v, ZS): return B('(negb (Z.eqb %s 0%%Z))' % v.s)
         raise Unsupported('truthiness of %r' % (v,), node)
@@ -550,6 +566,9 @@ class Translator:
 
     def merge(self, c, a, b, node=None):
         """value-level if-then-else on a symbolic condition"""
+        if isinstance(a, int) and isinstance(b, int) and not isinstance(a, bool) and not isinstance(b, bool):
+            return RZ('(if %s then %s else %s)' % (c.s, self.rs(a), self.rs(b)),
+                      '(if %s then (%d)%%Z else (%d)%%Z)' % (c.s, a, b))
         if is_realish(a) and is_realish(b):
             return R('(if %s then %s else %s)' % (c.s, self.rs(a), self.rs(b)))
         if isinstance(a, (C,)) or isinstance(b, (C,)):
@@ -830,6 +849,11 @@ class Translator:
                 cont[idx] = self.bind_val('e', val)
             else:
                 raise Unsupported('subscript assignment', target)
+        elif isinstance(target, ast.Attribute):
+            obj = self.ev(target.value, env)
+            if not isinstance(obj, Obj):
+                raise Unsupported('attribute assignment on a non-object', target)
+            obj.attrs[target.attr] = self.bind_val(target.attr, val)
         else:
             raise Unsupported('assignment target', target)
 
@@ -923,6 +947,8 @@ class Translator:
                     stmts = list(s.body if c else s.orelse) + stmts[i:]
                     i = 0
                     continue
+                if self.try_merge_if(c, s, env):
+                    continue          # both branches fell through: their effects are merged into env
                 rest = stmts[i:]
                 outs = []
                 for branch in (s.body, s.orelse):
@@ -955,11 +981,157 @@ class Translator:
                 out.append(st)
         return out
 
-    def copy_env(self, env):
-        out = {}
-        for k, v in env.items():
-            out[k] = copy.deepcopy(v) if isinstance(v, list) else v
-        return out
+    def copy_env(self, env, memo=None):
+        """copy of env in which every mutable container (list, Obj) is copied, aliasing preserved;
+        memo (if given) receives id(original) -> (original, copy)"""
+        memo = {} if memo is None else memo
+        def cp(v):
+            if isinstance(v, list):
+                if id(v) in memo: return memo[id(v)][1]
+                c = []
+                memo[id(v)] = (v, c)
+                c.extend(cp(x) for x in v)
+                return c
+            if isinstance(v, Obj):
+                if id(v) in memo: return memo[id(v)][1]
+                c = Obj(v.cls, {})
+                memo[id(v)] = (v, c)
+                for k, x in v.attrs.items():
+                    c.attrs[k] = cp(x)
+                return c
+            if isinstance(v, tuple):
+                return tuple(cp(x) for x in v)
+            if isinstance(v, dict):
+                return {k: cp(x) for k, x in v.items()}
+            return v
+        return {k: cp(v) for k, v in env.items()}
+
+    # ---------------------------------------------------- merging the two arms of a symbolic if
+    class MergeFail(Exception):
+        pass
+
+    def try_merge_if(self, c, s, env):
+        """symbolic `if c: body else: orelse` whose arms both fall through (no return / raise inside):
+        run the arms separately on copies of env, hoist their let-bindings (pure terms with fresh
+        names; Gallina is total) and merge every variable / container cell that differs into the
+        conditional VALUE `if c then v1 else v2`.  Returns False (with every effect undone) when the
+        arms cannot be merged — the caller then falls back to duplicating the continuation."""
+        binds_obj = self.ctx.binds
+        nb = len(binds_obj)
+        saved = (list(self.asserts), list(self.notes))
+        try:
+            outs = []
+            for branch in (s.body, s.orelse):
+                memo = {}
+                env2 = self.copy_env(env, memo)
+                try:
+                    r = self.run(list(branch), env2)
+                except Unsupported:
+                    raise self.MergeFail()
+                if r is not self.FALL:
+                    raise self.MergeFail()
+                outs.append((env2, memo))
+            (e1, m1), (e2, m2) = outs
+            rev1 = {id(cpy): orig for orig, cpy in m1.values()}
+            rev2 = {id(cpy): orig for orig, cpy in m2.values()}
+            fresh = {}
+
+            def mv(a, b):
+                if a is b: return a
+                amut, bmut = isinstance(a, (list, Obj)), isinstance(b, (list, Obj))
+                if amut or bmut:
+                    if not (amut and bmut) or type(a) is not type(b): raise self.MergeFail()
+                    oa, ob = rev1.get(id(a)), rev2.get(id(b))
+                    if oa is not None or ob is not None:
+                        if oa is not ob: raise self.MergeFail()
+                        return oa            # the same pre-existing container: merged in place below
+                    key = (id(a), id(b))
+                    if key in fresh: return fresh[key]
+                    if isinstance(a, list):
+                        if len(a) != len(b): raise self.MergeFail()
+                        out = []
+                        fresh[key] = out
+                        out.extend(mv(x, y) for x, y in zip(a, b))
+                        return out
+                    if a.cls != b.cls or set(a.attrs) != set(b.attrs): raise self.MergeFail()
+                    out = Obj(a.cls, {})
+                    fresh[key] = out
+                    for k in a.attrs:
+                        out.attrs[k] = mv(a.attrs[k], b.attrs[k])
+                    return out
+                if isinstance(a, tuple) and isinstance(b, tuple):
+                    if len(a) != len(b): raise self.MergeFail()
+                    return tuple(mv(x, y) for x, y in zip(a, b))
+                if isinstance(a, dict) and isinstance(b, dict):
+                    if set(a) != set(b): raise self.MergeFail()
+                    return {k: mv(a[k], b[k]) for k in a}
+                if isinstance(a, bool) or isinstance(b, bool) or isinstance(a, B) or isinstance(b, B):
+                    def bs(v):
+                        if isinstance(v, bool): return 'true' if v else 'false'
+                        if isinstance(v, B): return v.s
+                        raise self.MergeFail()
+                    x, y = bs(a), bs(b)
+                    if x == y: return a
+                    return self.bind_val('phi', B('(if %s then %s else %s)' % (c.s, x, y)))
+                if isinstance(a, C) or isinstance(b, C):
+                    if not ((isinstance(a, C) or is_realish(a)) and (isinstance(b, C) or is_realish(b))):
+                        raise self.MergeFail()
+                    a2, b2 = self.to_c(a), self.to_c(b)
+                    return C(mv(a2.re, b2.re), mv(a2.im, b2.im))
+                if is_realish(a) and is_realish(b):
+                    if not isinstance(a, R) and not isinstance(b, R):
+                        if type(a) is type(b) and a == b: return a
+                        # two different STATIC numbers (e.g. the ints 0 / 1 used as flags): merging them
+                        # into a symbolic real would lose that they are static — duplicate instead
+                        raise self.MergeFail()
+                    x, y = self.rs(a), self.rs(b)
+                    if x == y: return a
+                    return self.bind_val('phi', R('(if %s then %s else %s)' % (c.s, x, y)))
+                if isinstance(a, ZS) or isinstance(b, ZS):
+                    def zs(v):
+                        if isinstance(v, ZS): return v.s
+                        if isinstance(v, int): return '(%d)%%Z' % v
+                        raise self.MergeFail()
+                    x, y = zs(a), zs(b)
+                    if x == y: return a
+                    return ZS('(if %s then %s else %s)' % (c.s, x, y))
+                if isinstance(a, Poly) and isinstance(b, Poly):
+                    if len(a.cs) != len(b.cs): raise self.MergeFail()
+                    return Poly([mv(x, y) for x, y in zip(a.cs, b.cs)])
+                if type(a) is type(b) and isinstance(a, (str, type(None), ast.AST)) and (a is b or a == b):
+                    return a
+                raise self.MergeFail()
+
+            # contents of the containers that existed before the if, merged in place
+            new_contents = []
+            for oid, (orig, c1) in m1.items():
+                if oid not in m2: raise self.MergeFail()
+                c2 = m2[oid][1]
+                if isinstance(orig, list):
+                    if len(c1) != len(c2): raise self.MergeFail()
+                    new_contents.append((orig, [mv(x, y) for x, y in zip(c1, c2)]))
+                else:
+                    if set(c1.attrs) != set(c2.attrs): raise self.MergeFail()
+                    new_contents.append((orig, {k: mv(c1.attrs[k], c2.attrs[k]) for k in c1.attrs}))
+            new_env = {}
+            for k in e1:
+                if k in e2:
+                    new_env[k] = mv(e1[k], e2[k])
+            # commit
+            for orig, cont in new_contents:
+                if isinstance(orig, list): orig[:] = cont
+                else:
+                    orig.attrs.clear(); orig.attrs.update(cont)
+            for k in list(env):
+                if k not in new_env: del env[k]
+            env.update(new_env)
+            return True
+        except self.MergeFail:
+            self.ctx.binds = binds_obj      # a nested continuation-duplication may have been interrupted
+            del self.ctx.binds[nb:]
+            self.asserts[:] = saved[0]
+            self.notes[:] = saved[1]
+            return False
 
     # ------------------------------------------------------------- rendering
     def render_val(self, v, ty):
@@ -1078,8 +1250,14 @@ class Translator:
             if isinstance(n, ast.Call) and isinstance(n.func, ast.Name) and n.func.id in self.funcs:
                 if any(isinstance(m, ast.Raise) for m in ast.walk(self.funcs[n.func.id])):
                     has_raise = True
+        body_stmts = list(fn.body)
+        if isinstance(ret, tuple) and ret[0] == 'post':
+            # ('post', python expression, type): the function returns None; its RESULT is the given
+            # expression over the final state (attributes assigned through self)
+            body_stmts.append(ast.Return(value=ast.parse(ret[1], mode='eval').body))
+            ret = ret[2]
         self.ret_ty = ('opt', ret) if has_raise and not (isinstance(ret, tuple) and ret[0] == 'opt') else ret
-        r = self.run(fn.body, env)
+        r = self.run(body_stmts, env)
         body = self.render_with(self.ctx.binds, r)
         head = 'Definition %s {K : Type} (N : Num K)%s %s : %s :=\n %s.' % (
             coqname, ' (T : NumT K)' if self.needs_T else '', ' '.join(params),
